@@ -14,7 +14,7 @@ from __future__ import annotations
 
 import json
 import os
-from typing import Any, Dict, List, Tuple
+from typing import Any, Dict, List, Optional, Tuple
 
 from . import core, c04
 from .core import Report
@@ -129,7 +129,7 @@ def read_schema() -> Dict[str, Any]:
             if r.key not in known:
                 raise RuntimeError(f"{dao.__name__}.{r.key}: relationship unknown to the class table of harness/c04.py")
             f, kind = known[r.key]
-            t = tag5(c04.TAGS((f.lstrip("_"), kind)))
+            t = tag5(c04.ref_tag(cn, f, kind, c04.CONTAINER.get((cn, f), "list")))
             tags.append(t)
             if kind == "many":
                 if r.secondary is None:
@@ -347,13 +347,18 @@ def gen_model(rng: core.Rng, idx: int) -> Dict[str, Any]:
     own: Dict[str, List[Tuple[str, str, str]]] = {}
     required: List[str] = []
     falsy: Dict[str, Any] = {}
+    noinit: List[str] = []
+    tuples: List[str] = []
 
     def mro_of(x):
         return (mro_of(base[x]) if base[x] else []) + [x]
     for i, n in enumerate(names):
         fl = [(f"a{i}", "scalar", "int")]
         for j in range(rng.randint(0, 2)):
-            fl.append((f"s{i}_{j}", "scalar", rng.choice(["int", "float", "str", "bool", "Optional[float]", "Optional[int]", "List[str]"])))
+            # (Tuple[int, ...] columns are outside what the generator claims: ORMatic raises on the Ellipsis.  Models with an alternative
+            #  mapping keep to the older shapes, so that the open finding C04-a does not combine with the python-level rules.)
+            fl.append((f"s{i}_{j}", "scalar", rng.choice(["int", "float", "str", "bool", "Optional[float]", "Optional[int]", "List[str]"] +
+                                                         ([] if altm else ["Set[int]", "Optional[datetime]"]))))
         outside = [m for m in names if m not in mro_of(n) and n not in mro_of(m)]
         for j in range(rng.randint(0, 2)):
             fl.append((f"r{i}_{j}", "one", rng.choice(outside) if outside and rng.chance(0.75) else rng.choice(names)))
@@ -362,6 +367,15 @@ def gen_model(rng: core.Rng, idx: int) -> Dict[str, Any]:
         for j in range(rng.randint(0, 2)):
             tg = [m for m in names if m != n]
             fl.append((f"l{i}_{j}", "many", rng.choice(tg)))
+            if not altm and rng.chance(0.25):
+                tuples.append(f"l{i}_{j}")             # declared Tuple[T, ...]
+        if not altm:
+            if rng.chance(0.3):
+                fl.append((f"n{i}", "scalar", "int"))
+                noinit.append(f"n{i}")                 # field(default=0, init=False): mapped, but no constructor argument
+            if rng.chance(0.2):
+                fl.append((f"rn{i}", "one", rng.choice(names)))
+                noinit.append(f"rn{i}")
         if altm and i == 0 and not any(k != "scalar" for _f, k, _t in fl):
             fl.append(("lalt", "many", names[2]))      # the alternatively mapped class has at least one relationship (renamed by its mapping)
         if altm and i == 1:
@@ -387,13 +401,16 @@ def gen_model(rng: core.Rng, idx: int) -> Dict[str, Any]:
     order = list(names)
     rng.shuffle(order)      # the order in which the classes are handed to ClassDiagram / ORMatic: any order (280300b orders the output)
     return {"idx": idx, "names": names, "base": base, "own": own, "required": required, "falsy": falsy, "umid": umid, "order": order,
-            "alt": names[0] if altm else None, "frozen": frozen, "own_new": own_new}
+            "alt": names[0] if altm else None, "frozen": frozen, "own_new": own_new, "noinit": noinit, "tuples": tuples}
 
 
 def model_source(md) -> str:
     dflt = {"int": "0", "float": "0.0", "str": "''", "bool": "False", "Optional[float]": "None", "Optional[int]": "None",
-            "List[str]": "field(default_factory=list)"}
-    out = ["from __future__ import annotations", "from dataclasses import dataclass, field", "from typing import List, Optional",
+            "List[str]": "field(default_factory=list)", "Set[int]": "field(default_factory=set)",
+            "Tuple[int, ...]": "field(default_factory=tuple)", "Optional[datetime]": "None"}
+    noinit, tuples = md.get("noinit", []), md.get("tuples", [])
+    out = ["from __future__ import annotations", "from dataclasses import dataclass, field", "from datetime import datetime",
+           "from typing import List, Optional, Set, Tuple",
            "from krrood.ormatic.dao import AlternativeMapping", "", "COUNTS = {}", "", ""]
     for n in md["names"]:
         parent = md["base"][n]
@@ -411,10 +428,16 @@ def model_source(md) -> str:
         out.append(deco)
         out.append(f"class {n}({parent}):" if parent else f"class {n}:")
         for f, kind, t in md["own"][n]:
-            if kind == "scalar":
+            if kind == "scalar" and f in noinit:
+                out.append(f"    {f}: {t} = field(default={dflt[t]}, init=False)")
+            elif kind == "scalar":
                 out.append(f"    {f}: {t} = {dflt[t]}")
+            elif kind == "one" and f in noinit:
+                out.append(f"    {f}: Optional[{t}] = field(default=None, init=False)")
             elif kind == "one":
                 out.append(f"    {f}: {t} = None" if f in md.get("required", []) else f"    {f}: Optional[{t}] = None")
+            elif f in tuples:
+                out.append(f"    {f}: Tuple[{t}, ...] = field(default_factory=tuple)")
             else:
                 out.append(f"    {f}: List[{t}] = field(default_factory=list)")
         if n in md.get("own_new", []):
@@ -516,6 +539,8 @@ def install_model(md, workdir) -> None:
     c04.CLASS_ID = {n: i + 1 for i, n in enumerate(names + extra + ["_Holder"])}
     c04.ROOT_KINDS = list(names)
     c04.FROZEN = set(md.get("frozen", []))
+    c04.NOINIT = {n: {f for c in mro(n) for f, _k, _t in own[c] if f in md.get("noinit", [])} for n in names}
+    c04.CONTAINER = {(n, f): "tuple" for n in names for c in mro(n) for f, _k, _t in own[c] if f in md.get("tuples", [])}
     # truthiness is inherited: a class is falsy-capable through the nearest definition on its MRO
     c04.FALSY_FIELDS = {}
     for n in names:
@@ -525,11 +550,13 @@ def install_model(md, workdir) -> None:
                 break
 
 
-def prepare_case04(d: dict, org: str, model_ok: bool) -> Dict[str, Any]:
+def prepare_case04(d: dict, org: str, model_ok: bool, keep: Optional[Dict[str, Any]] = None) -> Dict[str, Any]:
     """C04 on a generated model: real to_dao -> from_dao, no database."""
     ft = c04.features(d)
     res = c04.run_impl(d)
-    res.pop("_objs", None)
+    pair = res.pop("_objs", None)
+    if keep is not None:
+        keep["b"] = pair[1] if pair else None
     heap, r, anom = c04.input_heap(d)
     m = {"descr": d, "origin": org, "ft": ft, "res": res, "anomalies": anom, "heap": heap, "root": r, "expr": None,
          "in_f": False, "alts": c04.alts_ab(), "root_class": d["objs"][d["root"]]["c"]}
@@ -547,7 +574,8 @@ def spawn_worker(prop: str, seed: int, idx: int, ncases: int, model_ok: bool, ou
     cmd = [core.PY, "-m", "harness.c05", "--worker", prop, str(seed), str(idx), str(ncases), "1" if model_ok else "0", str(outf)]
     if replay_file:
         cmd.append(str(replay_file))
-    return subprocess.Popen(cmd, cwd=str(core.VERIF), env=core.IMPL_ENV, stdout=subprocess.DEVNULL, stderr=subprocess.PIPE, text=True)
+    env = dict(core.IMPL_ENV, VERIF_OPEN_RULES=",".join(sorted(OPEN_RULES)))
+    return subprocess.Popen(cmd, cwd=str(core.VERIF), env=env, stdout=subprocess.DEVNULL, stderr=subprocess.PIPE, text=True)
 
 
 def collect_worker(rep: Report, j, outf, pr):
@@ -584,13 +612,23 @@ def _worker_main(argv) -> int:
         open(outfile, "w").write(json.dumps(out, default=str))
         return 0
 
+    back_objs: Dict[str, Any] = {}
+
     def one(dsc, org):
         if prop == "C04":
-            m = prepare_case04(dsc, org, model_ok)
+            m = prepare_case04(dsc, org, model_ok, back_objs)
         else:
             m = prepare_case(dsc, org, sc, model_ok)
-            m["res"].pop("_back", None)
+            back_objs["b"] = m["res"].pop("_back", None)
         m["ft"].update(c04.falsy_features(dsc))
+        m["ft"].update(shape_features(dsc))
+        back = back_objs.pop("b", None)
+        m["is_db"] = prop == "C05"
+        if OPEN_RULES and back is not None and m["res"].get("py_iso") is not None:
+            try:
+                m["defect_view_ok"] = c04.py_iso(defect_view(dsc, prop == "C05"), back) is None
+            except Exception:  # noqa
+                m["defect_view_ok"] = False
         return m
 
     def failing(m):
@@ -598,6 +636,8 @@ def _worker_main(argv) -> int:
         if "exc" in res:
             return True
         if res.get("py_iso") is None:
+            return False
+        if m.get("defect_view_ok"):
             return False
         return prop == "C04" or not m["ft"]["repeated_elems"]
 
@@ -624,6 +664,324 @@ def _worker_main(argv) -> int:
     out["source"] = model_source(md)
     open(outfile, "w").write(json.dumps(out, default=str))
     return 0
+
+
+# ----------------------------------------------------------------------------- recorded defect behaviour of open generator-level findings
+OPEN_RULES = set(os.environ.get("VERIF_OPEN_RULES", "").split(",")) - {""}     # set by the parent check from its findings file
+RULE_FINDING = {"initfalse": "C04-g", "containers": "C04-h", "tz": "C05-c"}
+
+
+def shape_features(d: dict) -> Dict[str, int]:
+    objs = d["objs"]
+    ft = {"noinit_objs": 0, "tuple_fields": 0, "json_containers": 0, "tz_values": 0}
+    for o in objs:
+        cn = o["c"]
+        ni = c04.NOINIT.get(cn, set())
+        ft["noinit_objs"] += 1 if any((f in o["s"] and o["s"][f] not in (0, None)) or o["r"].get(f) for f in ni) else 0
+        ft["tuple_fields"] += sum(1 for (c, f) in c04.CONTAINER if c == cn)
+        for f, v in o["s"].items():
+            if isinstance(v, dict) and ("set" in v or "tuple" in v):
+                ft["json_containers"] += 1
+            if isinstance(v, dict) and "dt" in v and ("+" in v["dt"][10:]):
+                ft["tz_values"] += 1
+    return ft
+
+
+def defect_view(d: dict, db: bool):
+    """The input graph as the recorded defects of the OPEN findings leave it: init=False fields at their defaults (C04-g), declared
+    tuple collections as lists and -- after a reload -- JSON sets / tuples as lists (C04-h), aware datetimes naive after a reload (C05-c)."""
+    import datetime as _dt
+    objs = c04.build(d)
+    for o, po in zip(d["objs"], objs):
+        cn = o["c"]
+        if "initfalse" in OPEN_RULES:
+            for f in c04.NOINIT.get(cn, ()):
+                kind = next((k for g, k, _t, _o in c04.REFS.get(cn, []) if g == f), None)
+                object.__setattr__(po, f, None if kind == "one" else [] if kind == "many" else 0)
+        if "containers" in OPEN_RULES:
+            for (c, f) in c04.CONTAINER:
+                if c == cn:
+                    object.__setattr__(po, f, list(getattr(po, f)))
+            if db:
+                for f in c04.SCAL.get(cn, []):
+                    v = getattr(po, f, None)
+                    if isinstance(v, (set, frozenset)):
+                        object.__setattr__(po, f, sorted(v))
+                    elif isinstance(v, tuple):
+                        object.__setattr__(po, f, list(v))
+        if db and cn != "_Holder":      # open finding C05-b: a reloaded collection holds first occurrences only
+            for f, kind, _t, _o in c04.REFS.get(cn, []):
+                if kind == "many":
+                    first: List[Any] = []
+                    for e in getattr(po, f):
+                        if not any(e is z for z in first):
+                            first.append(e)
+                    object.__setattr__(po, f, type(getattr(po, f))(first) if isinstance(getattr(po, f), (list, tuple)) else first)
+        if "tz" in OPEN_RULES and db:
+            for f in c04.SCAL.get(cn, []):
+                v = getattr(po, f, None)
+                if isinstance(v, _dt.datetime) and v.tzinfo is not None:
+                    object.__setattr__(po, f, v.replace(tzinfo=None))
+    return objs[d["root"]]
+
+
+def rule_instances(m) -> List[str]:
+    """open generator-level findings a failing case is an exact instance of (its result equals the recorded defect behaviour)"""
+    if not m.get("defect_view_ok"):
+        return []
+    ft = m["ft"]
+    present = {"initfalse": ft.get("noinit_objs"), "containers": ft.get("tuple_fields") or ft.get("json_containers"), "tz": ft.get("tz_values")}
+    out = [RULE_FINDING[r] for r in sorted(OPEN_RULES) if present.get(r)]
+    return out + (["C05-b"] if out and ft.get("repeated_elems") and "frag" in m.get("kind5", "frag") and m.get("is_db") else [])
+
+
+# ----------------------------------------------------------------------------- fixed scenarios (run in a fresh interpreter)
+SCENARIO_FINDING = {"names_coincide": "C04-f", "nested_function": "C04-i", "nested_type": "C04-i", "negative_cache": "C04-j",
+                    "deep_chain": "C04-k", "postinit_cycle": "C04-l"}
+SCENARIO_PROPS = {"C04": ["negative_cache", "nested_function", "names_coincide", "deep_chain", "postinit_cycle"],
+                  "C05": ["negative_cache", "nested_function", "nested_type", "names_coincide", "deep_chain", "postinit_cycle"]}
+# the recorded defect behaviour of the open findings (narrow match)
+SCENARIO_SIG = {"names_coincide": "angle 180.0", "nested_function": "Outer.method", "nested_type": "module-level Inner",
+                "negative_cache": "NoDAOFoundError after the layer was imported", "deep_chain": "RecursionError",
+                "postinit_cycle": "__post_init__ read the uninitialised partner"}
+
+_SCN_NESTED = """
+class Inner:            # a module-level namesake of the nested class
+    pass
+
+
+class Outer:
+    class Inner:
+        def method(self):
+            return "inner"
+
+    def method(self):
+        return "outer"
+"""
+
+_SCN_ROT = """
+from __future__ import annotations
+import math
+from dataclasses import dataclass
+from krrood.ormatic.dao import AlternativeMapping
+
+
+@dataclass
+class Rot:
+    angle: float = 0.0          # radians
+
+
+@dataclass
+class RotMapping(AlternativeMapping[Rot]):
+    angle: float                # degrees: the same NAME as in Rot, another content
+
+    @classmethod
+    def create_instance(cls, obj):
+        return cls(math.degrees(obj.angle))
+
+    def create_from_dao(self):
+        return Rot(math.radians(self.angle))
+
+
+@dataclass
+class NamedRot(Rot):
+    name: str = ""
+"""
+
+_SCN_DEPT = """
+from __future__ import annotations
+from dataclasses import dataclass
+from typing import Optional
+
+
+@dataclass(eq=False)
+class Dept:
+    name: str = ""
+    head: Optional[Person] = None
+    head_name: str = ""
+
+    def __post_init__(self):
+        if self.head is not None:
+            self.head_name = self.head.name       # reads the partner
+
+
+@dataclass(eq=False)
+class Person:
+    name: str = ""
+    dept: Optional[Dept] = None
+"""
+
+
+def _scenario_main(argv) -> int:
+    """python -m harness.c05 --scenarios <C04|C05> <outfile>: fixed scenarios in a fresh interpreter (order matters for the first)."""
+    import importlib
+    import math
+    import sys
+    prop, outfile = argv[0], argv[1]
+    d = core.WORK / prop / "scenarios"
+    d.mkdir(parents=True, exist_ok=True)
+    sys.path.insert(0, str(d))
+    out: Dict[str, Any] = {}
+
+    def scenario(name):
+        def deco(fn):
+            if name in SCENARIO_PROPS[prop]:
+                try:
+                    sig = fn()
+                    out[name] = {"ok": sig is None, "sig": sig}
+                except Exception as e:  # noqa
+                    out[name] = {"ok": False, "sig": f"unexpected {type(e).__name__}: {str(e)[:120]}"}
+            return fn
+        return deco
+
+    from krrood.ormatic.dao import to_dao, NoDAOFoundError
+    from test.dataset.example_classes import Position, Node, CallableWrapper, PositionTypeWrapper
+
+    @scenario("negative_cache")
+    def _():
+        # order of ordinary operations: a conversion attempted before the generated layer is imported fails (rightly) ...
+        try:
+            to_dao(Position(1, 2, 3))
+            return "to_dao worked without a layer"
+        except NoDAOFoundError:
+            pass
+        importlib.import_module(c04.INTERFACE_MODULE)
+        try:                                      # ... and must work once the layer is there
+            to_dao(Position(1, 2, 3))
+        except NoDAOFoundError:
+            return "NoDAOFoundError after the layer was imported"
+        return None
+
+    c04.setup_impl()
+    (d / "scn_nested.py").write_text(_SCN_NESTED)
+    nested = importlib.import_module("scn_nested")
+
+    @scenario("nested_function")
+    def _():
+        w = CallableWrapper(nested.Outer.Inner.method)
+        back = to_dao(w).from_dao()
+        if back.func is nested.Outer.Inner.method:
+            return None
+        return "Outer.method" if back.func is nested.Outer.method else f"another function {back.func!r:.60}"
+
+    @scenario("nested_type")
+    def _():
+        from sqlalchemy.orm import Session
+        from krrood.ormatic.utils import create_engine
+        itf = c04.interface()
+        engine = create_engine("sqlite:///:memory:")
+        itf.Base.metadata.create_all(engine)
+        with Session(engine) as s1:
+            dao = to_dao(PositionTypeWrapper(nested.Outer.Inner))
+            s1.add(dao)
+            s1.commit()
+            pk = dao.database_id
+        with Session(engine) as s2:
+            back = s2.get(type(dao), pk).from_dao()
+        engine.dispose()
+        if back.position_type is nested.Outer.Inner:
+            return None
+        return "module-level Inner" if back.position_type is nested.Inner else f"another class {back.position_type!r:.60}"
+
+    @scenario("deep_chain")
+    def _():
+        n = None
+        for _i in range(300):
+            n = Node(n)
+        try:
+            back = to_dao(n).from_dao()
+        except RecursionError:
+            return "RecursionError"
+        depth = 0
+        while back is not None:
+            back, depth = back.parent, depth + 1
+        return None if depth == 300 else f"depth {depth}"
+
+    def generate(modname, source, class_names, mapping_names=()):
+        from sqlalchemy.orm import configure_mappers
+        from krrood.class_diagrams.class_diagram import ClassDiagram
+        from krrood.ormatic.ormatic import ORMatic
+        (d / f"{modname}.py").write_text(source)
+        mod = importlib.import_module(modname)
+        classes = [getattr(mod, n) for n in class_names]
+        o = ORMatic(ClassDiagram(classes), alternative_mappings=[getattr(mod, n) for n in mapping_names]) if mapping_names \
+            else ORMatic(ClassDiagram(classes))
+        o.make_all_tables()
+        with open(d / f"{modname}_dao.py", "w") as f:
+            o.to_sqlalchemy_file(f)
+        importlib.import_module(modname + "_dao")
+        configure_mappers()
+        return mod
+
+    @scenario("names_coincide")
+    def _():
+        mod = generate("scn_rot", _SCN_ROT, ["Rot", "NamedRot"], ["RotMapping"])
+        plain = to_dao(mod.Rot(math.pi)).from_dao()
+        if abs(plain.angle - math.pi) > 1e-9:
+            return f"Rot itself: angle {plain.angle}"
+        back = to_dao(mod.NamedRot(math.pi, "n")).from_dao()
+        if type(back) is mod.NamedRot and abs(back.angle - math.pi) < 1e-9 and back.name == "n":
+            return None
+        return f"angle {round(back.angle, 6)}"
+
+    @scenario("postinit_cycle")
+    def _():
+        mod = generate("scn_dept", _SCN_DEPT, ["Dept", "Person"])
+        p = mod.Person("ann")
+        dept = mod.Dept("r&d", p)
+        p.dept = dept
+        from_dept = to_dao(dept).from_dao()
+        if from_dept.head.dept is not from_dept or from_dept.head_name != "ann":
+            return "entered at Dept: wrong graph"
+        try:
+            from_person = to_dao(p).from_dao()
+        except AttributeError:
+            return "__post_init__ read the uninitialised partner"
+        if from_person.dept.head is from_person and from_person.dept.head_name == "":
+            return "__post_init__ read the uninitialised partner"      # the placeholder showed the class-level default
+        ok = from_person.dept.head is from_person and from_person.dept.head_name == "ann"
+        return None if ok else "entered at Person: wrong graph"
+
+    open(outfile, "w").write(json.dumps(out))
+    return 0
+
+
+def run_scenarios(rep: Report, prop: str, findings) -> Dict[str, Any]:
+    """Run the fixed scenarios in a fresh interpreter and judge them against the findings file of the property."""
+    outf = core.WORK / prop / "scenarios_out.json"
+    if outf.exists():
+        outf.unlink()
+    rc, log = core.sh([core.PY, "-m", "harness.c05", "--scenarios", prop, str(outf)], cwd=str(core.VERIF), env=core.IMPL_ENV, timeout=600)
+    if not outf.exists():
+        rep.oblige("scenarios", False, f"the scenario runner produced no output: {log[-300:]}")
+        return {}
+    obs = json.loads(outf.read_text())
+    by_id = {}
+    for f in findings:
+        by_id.setdefault(f.fid, f)
+    reported = set()
+    for name in SCENARIO_PROPS[prop]:
+        o = obs.get(name)
+        rep.count("scenario:" + name, True)
+        if o is None:
+            rep.oblige("scenario:" + name, False, "scenario did not run")
+            continue
+        f = by_id.get(SCENARIO_FINDING[name])
+        if o["ok"]:
+            if f is not None and f.kind == "open" and all(obs.get(n2, {}).get("ok") for n2 in SCENARIO_PROPS[prop] if SCENARIO_FINDING[n2] == f.fid):
+                if f.fid not in reported:
+                    rep.note(f"known finding {f.fid}: its scenario no longer fails (finding appears repaired)")
+                    reported.add(f.fid)
+            continue
+        if f is not None and f.kind == "open" and o["sig"] == SCENARIO_SIG[name]:
+            if f.fid not in reported:
+                rep.known(f)
+                reported.add(f.fid)
+            continue
+        rep.violation({"kind": "counterexample", "case": {"scenario": name}, "impl": o,
+                       "spec": "the scenario's object (graph) is converted / restored unchanged",
+                       "python": f"python -m harness.c05 --scenarios {prop} /tmp/out.json   # runs all fixed scenarios of {prop}; see harness/c05.py _scenario_main"})
+    return obs
 
 
 # ----------------------------------------------------------------------------- the check
@@ -695,6 +1053,10 @@ def decide(rep: Report, m: Dict[str, Any], v, model_ok: bool, inst: Dict[str, in
             rep.oblige("correspondence:model", False, f"{m['origin']}: impl = spec but the model differs inside the fragment (contradicts C05_reload)")
         else:
             tallies["stale"] += 1
+        return
+    if code != 0 and rule_instances(m):
+        for fid in rule_instances(m):
+            inst[fid] = inst.get(fid, 0) + 1
         return
     if code in (2, 3) and not in_f and m.get("altbase_relaxed_ok") and inst.get("_c04c_open"):
         inst["C04-c"] += 1
@@ -777,6 +1139,8 @@ def run(tier: str, seed: int, replay=None) -> int:
         return rep.finish()
 
     findings = core.load_findings(PROP)
+    OPEN_RULES.clear()
+    OPEN_RULES.update(rule for rule, fid in RULE_FINDING.items() if any(f.fid == fid and f.kind == "open" for f in findings))
     descrs: List[dict] = []
     origin: List[str] = []
     corpus_models: List[Any] = []
@@ -795,6 +1159,8 @@ def run(tier: str, seed: int, replay=None) -> int:
                            "python": "from harness import c05; print(c05.todao_state_db_scenario())"})
         if replay is not None:
             return rep.finish()
+    if replay is None:
+        rep.extra["scenarios"] = run_scenarios(rep, PROP, findings)
     replay_model = replay is not None and "class_model" in replay
     if replay_model:
         pass      # a case over a generated class model: re-run by a worker that re-installs the stored model
@@ -921,6 +1287,8 @@ def run(tier: str, seed: int, replay=None) -> int:
     if replay is None:
         for f in findings:
             w = json.loads((core.VERIF / f.witness).read_text())
+            if f.cls.startswith("K_scn"):
+                continue          # judged by run_scenarios
             if f.cls == "K_altbase_tmp":
                 obs = c04.altbase_tmp_observe()
                 rep.extra["altbase_tmp"] = obs
@@ -932,7 +1300,7 @@ def run(tier: str, seed: int, replay=None) -> int:
                 elif f.kind == "open":
                     rep.note("known finding C04-c: the scenario no longer yields a wrong object (repaired, or the address was not reused)")
                 continue
-            still = any(m["origin"] == f.witness and (m.get("code") == 2 or "exc" in m["res"])
+            still = any(m["origin"] == f.witness and (m.get("code") == 2 or "exc" in m["res"] or f.fid in rule_instances(m))
                         for m in metas)
             if f.kind == "open":
                 if still:
@@ -949,3 +1317,5 @@ if __name__ == "__main__":
     import sys
     if len(sys.argv) > 1 and sys.argv[1] == "--worker":
         sys.exit(_worker_main(sys.argv[2:]))
+    if len(sys.argv) > 1 and sys.argv[1] == "--scenarios":
+        sys.exit(_scenario_main(sys.argv[2:]))
